@@ -105,7 +105,12 @@ func VP_C15_Crash() {
 	zzvp.Assume(zzvp.Crashed())
 	_ = r
 	if argv[0] == "init" {
-		// an interrupted init may leave a partial .goit: then init must be repeatable or the directory recognisably incomplete
+		// an interrupted init must not leave a half-made repository: either nothing that counts as a repository exists and
+		// init can simply be run again, or the repository is complete
+		again := zzvp.Run("init")
+		zzvp.Assert(again.Exit == 0 || again.Exit == 1, "init after an interrupted init does not crash")
+		st := zzvp.Run("status")
+		zzvp.Assert(st.Exit == 0 && vpHeadRef() == "main", "after an interrupted init, running init again (or the completed first run) yields a usable repository")
 		zzvp.Done()
 		return
 	}
